@@ -514,7 +514,15 @@ class MultiSetCooccurrenceVectorizer(BaseCooccurrenceVectorizer):
                     dtype=np.float32,
                 )
             )
-        return sum(result)
+        result = sum(result)
+        if self._mask_index is not None and scipy.sparse.issparse(result):
+            # nullify_mask: the mask token opens no window of its own (the other
+            # vectorizers get this from its zero radius; here the target's own
+            # multiset is part of every window, so its row is cleared instead)
+            keep = np.ones(result.shape[0], dtype=np.float32)
+            keep[self._mask_index] = 0
+            result = scipy.sparse.diags(keep).dot(result)
+        return result
 
     def _get_default_kernel_functions(self):
         return _MULTI_KERNEL_FUNCTIONS
